@@ -576,9 +576,18 @@ def round_even_cases(T):
             if t.op == 'fn' and t.args[0] in ('floor', 'ceil', 'trunc'):
                 p = self.fpoly(t.args[1])
                 ip, c0 = self._split(p)
-                if t.args[0] == 'trunc':
-                    raise Undetermined('trunc of a symbolic value')
-                f = math.floor(c0) if t.args[0] == 'floor' else math.ceil(c0)
+                kind = t.args[0]
+                if kind == 'trunc':
+                    # truncation is floor for a non-negative value and ceil for a non-positive one; the symbols are strictly positive, so a polynomial whose
+                    # coefficients all have one sign has that sign
+                    cfs = [Fraction(cf) for cf in p.t.values()]
+                    if all(cf >= 0 for cf in cfs):
+                        kind = 'floor'
+                    elif all(cf <= 0 for cf in cfs):
+                        kind = 'ceil'
+                    else:
+                        raise Undetermined('trunc of a value of undetermined sign')
+                f = math.floor(c0) if kind == 'floor' else math.ceil(c0)
                 return ip + Poly.const(f)
             if t.op == 'fn' and t.args[0] == 'round':
                 raise Undetermined('round() reached on a tie shape')
@@ -602,10 +611,12 @@ def round_even_cases(T):
                                            ('x = -(2k + 3/2)', -(kk.scale(2) + Poly.const(Fraction(3, 2))), -(kk.scale(2) + Poly.const(2)))):
                         oid = '%s[%s].%s%s' % (nm, lane, desc, ', k = 0' if zero else ', k >= 1')
                         try:
-                            got = IntCone({xin: xs}).fpoly(t)
+                            got = IntCone({xin: xs}).fpoly(L.signbit_select(t))
                             d = got - want
                             if d.is_zero():
                                 res.append(R.ob(oid, 'round_even_ties', R.PROVED, 'returns %s: the even neighbour' % P.show_poly(want), kernel=kern.source()))
+                            elif any(P.atom_key(a_)[0] != 'sym' for a_ in d.atoms()):
+                                res.append(R.ob(oid, 'round_even_ties', R.UNDECIDED, 'not decided: the result %s contains a quantity the integer-symbol reading does not model' % P.show_poly(got, limit=3), kernel=kern.source()))
                             else:
                                 res.append(R.ob(oid, 'round_even_ties', R.REFUTED, 'returns %s on the tie %s; the even neighbour is %s (e.g. k = 1)' % (P.show_poly(got), desc, P.show_poly(want)), where=R.where_of(ctx.fn(kern), t), kernel=kern.source()))
                         except Undetermined as e:
